@@ -110,6 +110,9 @@ func (db *DB) Merge() error {
 			pos := db.index.Get(logRecord.Key)
 			if pos != nil && pos.Fid == dataFile.ID &&
 				pos.Offset == logRecordPos.Offset && pos.BlockID == logRecordPos.BlockID {
+				// 重写后的记录不再属于任何批次: 所属批次的完成标识记录不会被重写,
+				// 若保留批次 id, 之后通过扫描数据文件重建索引时该记录将被丢弃
+				logRecord.BatchID = 0
 				// 将数据重写到 merge 临时目录中
 				pos, err := mergeDB.appendLogRecord(logRecord)
 				if err != nil {
